@@ -95,11 +95,26 @@ def bfun(name, Z, B, method_call=False):
     return getattr(np, name)(Z)
 
 
+TINY_FNS = ('log', 'sqrt', 'pow1.5', 'pow-0.5', 'recip', 'ipow-1', 'ipow3', 'log2', 'log10', 'log1p', 'arcsinh', 'tan', 'expm1')
+
+
+def tiny_base_points(recs):
+    """the same directions and relative sizes at base points of magnitude 2^-27 and 2^-40 (perturbations RELATIVE to x0)"""
+    out, seen = [], set()
+    for r in recs:
+        if r['fn'] in TINY_FNS and (r['fn'], tuple(map(tuple, r['e'])), r['sh']) not in seen and r['sh'] in (4, 10, 20) and len(seen) < 2000:
+            seen.add((r['fn'], tuple(map(tuple, r['e'])), r['sh']))
+            for den in (2 ** 27, 2 ** 40):
+                out.append(dict(r, x0=[1, den], rel=True))
+    return out
+
+
 def fun_cases(B, recs, rep, stats):
     groups = {}
+    recs = list(recs) + tiny_base_points(recs)
     for r in recs:
         name, x0, e, d = r['fn'], r['x0'][0] / r['x0'][1], bq(r['e']), 2.0 ** -r['sh']
-        scale = max(abs(x0), 1.0)              # perturbation of RELATIVE size delta
+        scale = abs(x0) if r.get('rel') else max(abs(x0), 1.0)              # perturbation of RELATIVE size delta
         v = [x0, e[1] * d * scale, e[2] * d * scale, e[3] * d * scale]
         z1, z2 = v[0] + 1j * v[1], v[2] + 1j * v[3]
         if name == 'powz':
